@@ -117,6 +117,19 @@ fn build(l: &Logical, h: u32, asyncm: bool, rng: &mut Rng) -> Result<Vec<u8>, St
         }
         _ => {}
     }
+    if h == 4 && !ids.is_empty() && ids[0] % 2 == 0 {
+        // the remaining tiles are added, and the archive is written, by ANOTHER thread than the one that built the first half
+        arch.apply_settings(l);
+        let items: Vec<(u64, Vec<u8>)> = ids.iter().map(|id| (*id, l.tiles[id].as_ref().clone())).collect();
+        let handle = std::thread::spawn(move || -> Result<Vec<u8>, String> {
+            let mut arch = arch;
+            for (id, c) in items {
+                arch.add(id, c).map_err(|e| e.to_string())?;
+            }
+            arch.save().map_err(|e| e.to_string())
+        });
+        return handle.join().map_err(|_| String::from("writer thread panicked"))?;
+    }
     for id in &ids {
         arch.add(*id, l.tiles[id].as_ref().clone()).map_err(e)?;
     }
